@@ -74,7 +74,7 @@ def build(rng, cands, k=1, n_each=100, tagged=None, dialect=None, opts=None, int
         # keep each connection's own gaps, on one non-decreasing stream clock
         gap = rec['t_us'] - last_t[i]
         last_t[i] = rec['t_us']
-        clock += gap
+        clock = max(0, clock + gap)       # (a clock stepping backwards never goes below zero: libwayland prints unsigned times)
         rec = dict(rec)
         rec['t_conn_us'] = rec['t_us']
         rec['t_us'] = clock
